@@ -740,28 +740,67 @@ def inline_new_constants(trees: dict[str, ast.Module], base: dict[str, Any]) -> 
 
 # ------------------------------------------------------------------ driver (N1-N3; N4 runs after indexing, see aliases.py)
 def normalize_trees(trees: dict[str, ast.Module]) -> dict[str, Any]:
-    report: dict[str, Any] = {"renamed": {}, "inlined": [], "walrus": 0}
+    """Run the passes N1-N3, N5, N7, N8 in place.  Each pass is fail-safe: if it raises, the trees are restored to
+    what they were before that pass and the failure is recorded (a bug of the normaliser must never take the
+    checks down)."""
+    import pickle
+
+    report: dict[str, Any] = {"renamed": {}, "inlined": [], "walrus": 0, "failed_passes": []}
     if os.environ.get("SA_NO_NORMALIZE"):
         report["disabled"] = True
         return report
     base = load_baseline()
-    if base is not None:
-        fn_ren, at_ren = find_renames(trees, base)
-        if fn_ren or at_ren:
-            r = _Renamer(fn_ren, at_ren)
+
+    def guarded(name: str, fn) -> None:
+        snap = pickle.dumps(trees, protocol=pickle.HIGHEST_PROTOCOL)
+        try:
+            fn()
             for t in trees.values():
-                r.visit(t)
-            report["renamed"] = {**{f"{k}()": v for k, v in fn_ren.items()}, **at_ren}
-        log: list[str] = []
-        inline_new_helpers(trees, base, log)
-        report["inlined"] = log
-        report["constants"] = inline_new_constants(trees, base)
-    wl: list[str] = []
-    for t in trees.values():
-        hoist_walrus(t, wl)
-    report["walrus"] = len(wl)
-    report["extend"] = sum(expand_extend(t) for t in trees.values())
-    report["type_checking_blocks"] = sum(drop_type_checking(t) for t in trees.values())
+                ast.fix_missing_locations(t)
+                compile(t, "<normalised>", "exec")  # the rewritten module must still be a valid program
+        except Exception as e:  # noqa: BLE001
+            old = pickle.loads(snap)
+            for k in list(trees):
+                # restore in place: the Module objects are referenced by the loader
+                trees[k].body = old[k].body
+            report["failed_passes"].append(f"{name}: {type(e).__name__}: {e}")
+
+    if base is not None:
+        def n1() -> None:
+            fn_ren, at_ren = find_renames(trees, base)
+            if fn_ren or at_ren:
+                r = _Renamer(fn_ren, at_ren)
+                for t in trees.values():
+                    r.visit(t)
+                report["renamed"] = {**{f"{k}()": v for k, v in fn_ren.items()}, **at_ren}
+
+        def n2() -> None:
+            log: list[str] = []
+            inline_new_helpers(trees, base, log)
+            report["inlined"] = log
+
+        def n7() -> None:
+            report["constants"] = inline_new_constants(trees, base)
+
+        guarded("N1 renames", n1)
+        guarded("N2 inlining", n2)
+        guarded("N7 constants", n7)
+
+    def n3() -> None:
+        wl: list[str] = []
+        for t in trees.values():
+            hoist_walrus(t, wl)
+        report["walrus"] = len(wl)
+
+    def n5() -> None:
+        report["extend"] = sum(expand_extend(t) for t in trees.values())
+
+    def n8() -> None:
+        report["type_checking_blocks"] = sum(drop_type_checking(t) for t in trees.values())
+
+    guarded("N3 walrus", n3)
+    guarded("N5 extend", n5)
+    guarded("N8 TYPE_CHECKING", n8)
     for t in trees.values():
         ast.fix_missing_locations(t)
     return report
